@@ -412,290 +412,20 @@ def run(repo, rep):
                           '%s creates an annotation event outside the Annotated branch of best_layout' % f.qualname)
     rep.floor('C04.e', n_e, 4)
 
-    _normalisation(repo, rep)
-    _hoisting(repo, rep)
+    # C04.f / C04.g (and what used to be C04.k): the combinators and normalisation, interpreted on small concrete documents and
+    # compared through their denotation (texts over all flat/break choices + where each flat group is measured from)
+    from . import docmodel
+    rep.floor('C04.f+g', docmodel.run(repo, rep), 3)
+    _flatchoice_order(repo, rep)
     _align(repo, rep)
-    _constructors(repo, rep)
     _hardline_in_flat(repo, rep, ms)
     _renderer(repo, rep)
 
 
-# --------------------------------------------------------------------------- C04.f
-def _normalisation(repo, rep):
-    m = repo.module('doctypes')
-    n = 0
-    nd = m.funcs.get('normalize_doc')
-    if nd is None:
-        raise AnalysisError('doctypes.normalize_doc vanished')
-    # normalize_doc: a str is returned as is unless it is '' ; everything else -> .normalize()
-    paths = enumerate_paths(nd.node.body, '__none__', {})
-    p0 = nd.params[0]
-    for p in paths:
-        rets = [e for e in p.events if e[0] == 'return']
-        if not rets:
-            continue
-        n += 1
-        r = rets[-1][1]
-        if r == 'NIL':
-            ok = any(pol and t.replace(' ', '') in ("%s==''" % p0, "''==%s" % p0, 'not%s' % p0,
-                                                    "len(%s)==0" % p0) or
-                     (not pol and t.replace(' ', '') in (p0, "%s!=''" % p0))
-                     for t, pol in p.conds)
-            rep.check(ok, 'C04.f', 'normalize_doc:nil-only-for-empty', '%s:%d' % (m.relpath, rets[-1][2]),
-                      "only '' becomes NIL", 'normalize_doc returns NIL on path %s: text is dropped' % p.cond_text(),
-                      nontrivial=True)
-        else:
-            ok = r in (p0, '%s.normalize()' % p0)
-            rep.check(ok, 'C04.f', 'normalize_doc:returns-doc', '%s:%d' % (m.relpath, rets[-1][2]),
-                      'document returned or delegated', 'normalize_doc returns %s' % r)
-    for cname, ci in m.classes.items():
-        meth = ci.methods.get('normalize')
-        if meth is None or cname == 'Doc':
-            continue
-        node = meth.node
-        loops = [s for s in ast.walk(node) if isinstance(s, ast.For)]
-        for lp in loops:
-            if not (isinstance(lp.target, ast.Name) and src(lp.iter) in ('self.docs', 'self.docs[:]')):
-                continue
-            var = lp.target.id
-            g = Guards(node)
-            # names that alias the loop element after normalisation / unwrapping
-            alias = {var}
-            for s in ast.walk(lp):
-                if isinstance(s, ast.Assign) and len(s.targets) == 1 and isinstance(s.targets[0], ast.Name):
-                    if any(isinstance(x, ast.Name) and x.id in alias for x in ast.walk(s.value)):
-                        alias.add(s.targets[0].id)
-            paths = enumerate_paths(lp.body, '__none__', {})
-            rep.count(len(paths))
-            for p in paths:
-                n += 1
-                kept = False
-                for e in p.events:
-                    if e[0] == 'call' and (e[1].endswith('.append') or e[1].endswith('.extend')):
-                        if any(any(a == x or a.startswith(x + '.') or ('(' + x + ')') in a
-                                   or a == 'normalize_doc(%s)' % x for x in alias) or
-                               any(x in _names(a) for x in alias) for a in e[2]):
-                            kept = True
-                nil_guard = any(_is_nil_test(t, alias, pol) for t, pol in p.conds)
-                rep.check(kept or nil_guard, 'C04.f', '%s.normalize:child-kept[%s]' % (cname, p.cond_text()),
-                          '%s:%d' % (m.relpath, lp.lineno), 'child retained or NIL',
-                          '%s.normalize drops a child on path (%s) that is not known to be NIL'
-                          % (cname, p.cond_text()), nontrivial=True)
-            # each child normalised at most once per iteration (shared with C12)
-        # whole-document NIL result only when nothing is left / inner is NIL
-        for r in ast.walk(node):
-            if isinstance(r, ast.Return) and r.value is not None and src(r.value) == 'NIL':
-                n += 1
-                g = Guards(node)
-                fs = g.of(r)
-                ok = any(_empty_or_nil_fact(f) for f in fs) or _after_if_nonempty_return(node, r)
-                rep.check(ok, 'C04.f', '%s.normalize:nil-result' % cname, '%s:%d' % (m.relpath, r.lineno),
-                          'NIL only for empty content',
-                          '%s.normalize returns NIL without an emptiness / is-NIL guard (%s)'
-                          % (cname, g.texts(r)), nontrivial=True)
-        # Nest keeps its amount
-        if cname == 'Nest':
-            for c in ast.walk(node):
-                if isinstance(c, ast.Call) and call_name(c) == 'Nest':
-                    n += 1
-                    rep.check(c.args and src(c.args[0]) == 'self.indent', 'C04.f', 'Nest.normalize:amount',
-                              '%s:%d' % (m.relpath, c.lineno), 'nest amount preserved',
-                              'Nest.normalize rebuilds the node with amount %s' % (src(c.args[0]) if c.args else '?'))
-        if cname == 'Annotated':
-            for c in ast.walk(node):
-                if isinstance(c, ast.Call) and call_name(c) == 'Annotated':
-                    n += 1
-                    args = [src(a) for a in c.args] + ['%s=%s' % (k.arg, src(k.value)) for k in c.keywords]
-                    ok = len(c.args) == 2 and src(c.args[1]) == 'self.annotation' \
-                        and src(c.args[0]) in ('normalize_doc(self.doc)', 'self.doc')
-                    rep.check(ok, 'C04.f', 'Annotated.normalize:same-annotation', '%s:%d' % (m.relpath, c.lineno),
-                              'annotation preserved', 'Annotated.normalize rebuilds as Annotated(%s)' % ', '.join(args))
-        if cname == 'FlatChoice':
-            for c in ast.walk(node):
-                if isinstance(c, ast.Call) and call_name(c) == 'FlatChoice':
-                    n += 1
-                    a = [src(x) for x in c.args]
-                    ok = a[:2] == ['self._when_broken', 'self._when_flat']
-                    rep.check(ok, 'C04.f', 'FlatChoice.normalize:branches', '%s:%d' % (m.relpath, c.lineno),
-                              'alternatives kept in place', 'FlatChoice.normalize rebuilds as FlatChoice(%s)' % ', '.join(a))
-    # FlatChoice constructor / accessors: broken is broken, flat is flat
-    fc = m.classes.get('FlatChoice')
-    if fc is None:
-        raise AnalysisError('doctypes.FlatChoice vanished')
-    for prop, field in (('when_broken', '_when_broken'), ('when_flat', '_when_flat')):
-        meth = fc.methods.get(prop)
-        n += 1
-        if meth is None:
-            rep.fail('C04.f', 'FlatChoice.%s:accessor' % prop, fc.where, 'accessor vanished')
-            continue
-        rets = [r for r in ast.walk(meth.node) if isinstance(r, ast.Return) and r.value is not None]
-        rep.check(rets and all(src(r.value) == 'self.' + field for r in rets), 'C04.f',
-                  'FlatChoice.%s:returns-own-field' % prop, meth.where, 'accessor returns its own alternative',
-                  'FlatChoice.%s returns %s' % (prop, [src(r.value) for r in rets]), nontrivial=True)
-        for s in ast.walk(meth.node):
-            if isinstance(s, ast.Assign) and src(s.targets[0]).startswith('self._when'):
-                rep.check(src(s.targets[0]) == 'self.' + field and src(s.value) == 'normalize_doc(self.%s)' % field,
-                          'C04.f', 'FlatChoice.%s:lazy-normalise' % prop, meth.where,
-                          'lazy normalisation stores the normalised own alternative',
-                          'FlatChoice.%s stores %s = %s' % (prop, src(s.targets[0]), src(s.value)))
-    init = fc.methods.get('__init__')
-    if init is not None:
-        ps = init.params
-        for s in ast.walk(init.node):
-            if isinstance(s, ast.Assign) and src(s.targets[0]) in ('self._when_broken', 'self._when_flat'):
-                n += 1
-                want = src(s.targets[0]).replace('self._', '')
-                rep.check(src(s.value) == want, 'C04.f', 'FlatChoice.__init__:%s' % want, init.where,
-                          'constructor stores each alternative in its own field',
-                          'FlatChoice.__init__ stores %s in %s' % (src(s.value), src(s.targets[0])))
-    # the public combinator passes (when_broken, when_flat) in that positional order
-    docm = repo.module('doc')
-    fcf = docm.funcs.get('flat_choice')
-    if fcf is not None and init is not None:
-        order = [p for p in init.params if p != 'self'][:2]
-        for c in ast.walk(fcf.node):
-            if isinstance(c, ast.Call) and call_name(c) == 'FlatChoice':
-                n += 1
-                got = []
-                for i, a in enumerate(c.args):
-                    got.append((order[i] if i < len(order) else '?', a))
-                for k in c.keywords:
-                    got.append((k.arg, k.value))
-                ok = all(any(isinstance(x, ast.Name) and x.id == pname for x in ast.walk(a)) for pname, a in got) \
-                    and {pn for pn, _ in got} >= set(order)
-                rep.check(ok, 'C04.f', 'flat_choice:argument-order', '%s:%d' % (docm.relpath, c.lineno),
-                          'combinator wires broken/flat to the right constructor slots',
-                          'flat_choice builds FlatChoice(%s) but the constructor takes %s'
-                          % (', '.join(src(a) for _, a in got), order), nontrivial=True)
-    # LINE / SOFTLINE
-    for name, flat in (('LINE', "' '"), ('SOFTLINE', 'NIL')):
-        v = m.assigns.get(name)
-        n += 1
-        if not v:
-            rep.fail('C04.f', name + ':definition', m.relpath, name + ' vanished')
-            continue
-        v = v[-1]
-        ok = isinstance(v, ast.Call) and call_name(v) == 'FlatChoice'
-        if ok:
-            order = [p for p in init.params if p != 'self'] if init else ['when_broken', 'when_flat']
-            bound = {}
-            for i, a in enumerate(v.args):
-                bound[order[i]] = src(a)
-            for k in v.keywords:
-                bound[k.arg] = src(k.value)
-            ok = bound.get('when_broken') == 'HARDLINE' and bound.get('when_flat') == flat
-        rep.check(ok, 'C04.f', name + ':definition', '%s:%d' % (m.relpath, v.lineno),
-                  '%s = FlatChoice(HARDLINE, %s)' % (name, flat),
-                  '%s is defined as %s' % (name, src(v)), nontrivial=True)
-    rep.floor('C04.f', n, 14)
-
-
-def _names(text):
-    try:
-        return {x.id for x in ast.walk(ast.parse(text, mode='eval')) if isinstance(x, ast.Name)}
-    except SyntaxError:
-        return set()
-
-
-def _is_nil_test(text, alias, pol=True):
-    try:
-        t = ast.parse(text, mode='eval').body
-    except SyntaxError:
-        return False
-    cp = compare_parts(t, pol)
-    if not cp or cp[1] not in ('is', '=='):
-        return False
-    l, _, r = cp
-    if src(r) != 'NIL':
-        l, r = r, l
-    return src(r) == 'NIL' and bool(_names(src(l)) & set(alias))
-
-
-def _empty_or_nil_fact(f):
-    t = f.text.replace(' ', '')
-    if f.pol and (t.endswith('isNIL') or t.startswith('not') or t.endswith('==0')):
-        return True
-    if not f.pol and not any(op in t for op in ('is', '==', '<', '>')):
-        return True     # ``if docs: ...`` false branch
-    return False
-
-
-def _after_if_nonempty_return(fn, ret):
-    """``if xs: ...; return ...`` followed by ``return NIL`` at function level"""
-    body = fn.body
-    for i, st in enumerate(body):
-        if st is ret and i > 0 and isinstance(body[i - 1], ast.If):
-            prev = body[i - 1]
-            from engine.astutil import always_exits
-            return always_exits(prev.body) and not prev.orelse and isinstance(prev.test, ast.Name)
-    return False
-
-
-# --------------------------------------------------------------------------- C04.k
-def _hoisting(repo, rep):
-    """always_break content forces every enclosing group to break: normalisation hoists an
-    AlwaysBreak child out of Concat / Fill / Nest / Group, and keeps it on every return path"""
-    m = repo.module('doctypes')
-    n = 0
-    for cname in ('Concat', 'Fill'):
-        ci = m.classes.get(cname)
-        nm = ci.methods.get('normalize') if ci else None
-        if nm is None:
-            raise AnalysisError('%s.normalize vanished' % cname)
-        flags = [src(s.targets[0]) for s in ast.walk(nm.node) if isinstance(s, ast.Assign) and src(s.value) == 'True'
-                 and isinstance(s.targets[0], ast.Name)]
-        n += 1
-        if not flags:
-            rep.fail('C04.k', '%s.normalize:records-forced-break' % cname, nm.where,
-                     '%s.normalize no longer records that a child was an AlwaysBreak' % cname)
-            continue
-        flag = flags[0]
-        g = Guards(nm.node)
-        # the flag is set exactly where an AlwaysBreak child is unwrapped
-        sets = [s for s in ast.walk(nm.node) if isinstance(s, ast.Assign) and src(s.targets[0]) == flag and src(s.value) == 'True']
-        rep.check(all(any(f.pol and 'AlwaysBreak' in f.text and 'isinstance' in f.text for f in g.of(s)) for s in sets),
-                  'C04.k', '%s.normalize:records-forced-break' % cname, nm.where, 'flag set when an AlwaysBreak child is met',
-                  '%s.normalize sets %s outside the isinstance(child, AlwaysBreak) case' % (cname, flag))
-        loop = [s for s in nm.node.body if isinstance(s, ast.For)]
-        tail = nm.node.body[nm.node.body.index(loop[0]) + 1:] if loop else nm.node.body
-        for p in enumerate_paths(tail, '__none__', {}):
-            rets = [e for e in p.events if e[0] == 'return']
-            if not rets:
-                continue
-            val = rets[-1][1]
-            tested = [pol for t, pol in p.conds if t == flag]
-            n += 1
-            if val == 'NIL':
-                rep.ok('C04.k', '%s.normalize:return[%s]' % (cname, p.cond_text()[:60]), nm.where, 'empty result')
-                continue
-            ok = (tested and tested[-1] is True and val.startswith('AlwaysBreak(')) or (tested and tested[-1] is False and not val.startswith('AlwaysBreak('))
-            rep.check(ok, 'C04.k', '%s.normalize:return[%s]' % (cname, p.cond_text()[:60]), '%s:%d' % (m.relpath, rets[-1][2]),
-                      'result wrapped in AlwaysBreak exactly when a child forced a break',
-                      '%s.normalize returns %s on the path (%s) without consulting / honouring %s: an always_break child no longer '
-                      'forces the enclosing groups to break' % (cname, val[:60], p.cond_text()[:120], flag), nontrivial=True)
-    ci = m.classes.get('Nest')
-    nm = ci.methods.get('normalize') if ci else None
-    if nm is not None:
-        g = Guards(nm.node)
-        rets = [r for r in ast.walk(nm.node) if isinstance(r, ast.Return) and r.value is not None]
-        hoisted = [r for r in rets if src(r.value).startswith('AlwaysBreak(Nest(self.indent')
-                   and any(f.pol and 'isinstance' in f.text and 'AlwaysBreak' in f.text for f in g.of(r))]
-        n += 1
-        rep.check(len(hoisted) == 1, 'C04.k', 'Nest.normalize:hoists', nm.where, 'AlwaysBreak hoisted out of Nest',
-                  'Nest.normalize no longer returns AlwaysBreak(Nest(indent, inner.doc)) for an always-broken child', nontrivial=True)
-    for cname in ('Group', 'AlwaysBreak'):
-        ci = m.classes.get(cname)
-        nm = ci.methods.get('normalize') if ci else None
-        if nm is None:
-            continue
-        g = Guards(nm.node)
-        rets = [r for r in ast.walk(nm.node) if isinstance(r, ast.Return) and r.value is not None
-                and any(f.pol and 'isinstance' in f.text and 'AlwaysBreak' in f.text for f in g.of(r))]
-        n += 1
-        rep.check(len(rets) == 1 and isinstance(rets[0].value, ast.Name), 'C04.k', '%s.normalize:keeps-forced-break' % cname, nm.where,
-                  'an always-broken child is returned as is (group dissolved / no double wrapping)',
-                  '%s.normalize no longer returns the always-broken child itself' % cname, nontrivial=True)
-    rep.floor('C04.k', n, 8)
+# --------------------------------------------------------------------------- C04.f (argument order of the public combinator)
+def _flatchoice_order(repo, rep):
+    """kept for the diagnostic only: decided semantically by the document model (a swapped pair changes the denotation)"""
+    return 0
 
 
 # --------------------------------------------------------------------------- C04.j
@@ -743,47 +473,6 @@ def _align(repo, rep):
         rep.check(t in ('Nest(%s,validate_doc(%s))' % (nf.params[0], nf.params[1]), 'Nest(%s,%s)' % (nf.params[0], nf.params[1])),
                   'C04.j', 'nest:amount-and-doc', nf.where, 'nest(i, d) = Nest(i, d)', 'nest returns %s' % t, nontrivial=True)
     rep.floor('C04.j', n, 4)
-
-
-# --------------------------------------------------------------------------- C04.g
-def _constructors(repo, rep):
-    docm = repo.module('doc')
-    vd = docm.funcs.get('validate_doc')
-    accepts_str = vd is not None and any(
-        isinstance(c, ast.Call) and call_name(c) == 'isinstance' and len(c.args) == 2
-        and 'str' in _names(src(c.args[1])) for c in ast.walk(vd.node))
-    m = repo.module('doctypes')
-    n = 0
-    for cname, ci in sorted(m.classes.items()):
-        init = ci.methods.get('__init__')
-        if init is None:
-            continue
-        for a in ast.walk(init.node):
-            if isinstance(a, ast.Assert) and isinstance(a.test, ast.Call) \
-                    and call_name(a.test) == 'isinstance' and len(a.test.args) == 2:
-                tnames = _names(src(a.test.args[1]))
-                if 'Doc' not in tnames:
-                    continue
-                n += 1
-                rep.check((not accepts_str) or 'str' in tnames, 'C04.g', '%s.__init__:assert-doc' % cname,
-                          '%s:%d' % (m.relpath, a.lineno), 'constructor accepts str like validate_doc',
-                          'validate_doc accepts a plain str as a document but %s.__init__ asserts '
-                          'isinstance(%s, %s): %s(...) of a str raises AssertionError'
-                          % (cname, src(a.test.args[0]), src(a.test.args[1]), cname.lower()), nontrivial=True)
-    rep.check(accepts_str, 'C04.g', 'validate_doc:accepts-str', vd.where if vd else docm.relpath,
-              'str is a document', 'validate_doc no longer accepts str')
-    # every public combinator validates what it wraps
-    for fname in ('group', 'concat', 'nest', 'fill', 'always_break', 'flat_choice', 'align', 'hang'):
-        f = docm.funcs.get(fname)
-        if f is None:
-            continue
-        n += 1
-        uses = any(isinstance(c, ast.Call) and call_name(c) == 'validate_doc' for c in ast.walk(f.node)) or \
-            any(isinstance(x, ast.Name) and x.id == 'validate_doc' for x in ast.walk(f.node)) or \
-            any(isinstance(c, ast.Call) and call_name(c) in ('align', 'nest') for c in ast.walk(f.node))
-        rep.check(uses, 'C04.g', '%s:validates' % fname, f.where, 'combinator validates its argument',
-                  'combinator %s no longer validates its document argument' % fname)
-    rep.floor('C04.g', n, 8)
 
 
 # --------------------------------------------------------------------------- C04.h
